@@ -1,10 +1,12 @@
 """C11 — no subform is silently dropped: R-LIN over every compile function, unpack exhaustiveness, slot usage."""
+CANON = True
+STRICT = {"R-LIN-ANON", "R-LIN-VAR", "R-LIN-ROLE", "R-SLOT", "UNPACK", "ARGS"}
+
 import ast
 
 from .. import compq, pyq, rflow
 from ..pyflow import Reach
 from ..pysrc import dotted, norm
-from .c10 import STATEMENT_FREE, _enclosing_tests
 
 CONSUMING_CALLS = {"_storeize", "compile_function_node", "Tag", "append", "extend", "compile_with_expression", "iterator", "Result"}
 NONCONSUMING_ATTRS = {"expr", "force_expr", "is_expr", "temp_variables", "rename", "lineno", "col_offset", "end_lineno", "end_col_offset"}
@@ -115,18 +117,10 @@ def check(ctx, src):
             # --- anonymous projection
             if isinstance(p, ast.Attribute) and p.attr in ("expr", "force_expr"):
                 txt = norm(p)
-                sf = STATEMENT_FREE.get(txt if p.attr == "expr" else None)
-                if p.attr == "force_expr" and norm(getattr(p, "_parent", p)).endswith(".force_expr.value"):
-                    # singleton arm of compile_pattern: the compiled form is the symbol None/True/False
-                    tests = [norm(t) for pol, t in _enclosing_tests(p, f) if pol == "pos"]
-                    if any("str(value) in ('None', 'True', 'False')" in t for t in tests):
-                        ctx.ok("R-LIN-ANON", key, "singleton arm: a constant symbol compiles to no statements")
-                        continue
-                if sf is not None:
-                    tests = [norm(t) for pol, t in _enclosing_tests(p, f) if pol == "pos"]
-                    if any(sf in t for t in tests):
-                        ctx.ok("R-LIN-ANON", key, f"statement-free by guard `{sf}`")
-                        continue
+                why = compq.statement_free(c, f)
+                if why:
+                    ctx.ok("R-LIN-ANON", key, f"statement-free sub-form: {why}")
+                    continue
                 ctx.bad("R-LIN-ANON", key, f"`{txt[:80]}` keeps only the expression of the compiled sub-form; statements it compiles to are dropped",
                         m.rel, c.lineno, witness="put a statement-producing form such as (do (setv x 1) x) in this slot: `x = 1` never appears in the output")
                 continue
